@@ -20,18 +20,20 @@ import (
 )
 
 type c17Scenario struct {
-	name  string
-	imm   int  // immediate retries allowed before the schedule applies
-	cost  int  // ms one attempt takes besides the wait
-	tol   int  // ms of tolerance (flush interval, re-establishing a region)
-	zero  bool // the loop's first pass does not wait (establishRegion)
-	batch bool
-	two   bool // two regions on two servers, a batch with one call each
-	swap  bool // ... in the other order
-	warm  bool // the region is used successfully first; the failure begins afterwards
-	loops int  // > 1: that many regions on the failing server, one concurrent request each (attempts of the loops interleave)
-	setup func(cl *verifsim.Cluster, mark func())
-	opts  []Option
+	name         string
+	imm          int  // immediate retries allowed before the schedule applies
+	cost         int  // ms one attempt takes besides the wait
+	tol          int  // ms of tolerance (flush interval, re-establishing a region)
+	zero         bool // the loop's first pass does not wait (establishRegion)
+	batch        bool
+	two          bool // two regions on two servers, a batch with one call each
+	swap         bool // ... in the other order
+	warm         bool // the region is used successfully first; the failure begins afterwards
+	scan         bool // the entry point is a scanner's Next
+	cacheRegions bool // the entry point is CacheRegions(table) (the meta lookup for a whole table; it has no context: only Close ends it)
+	loops        int  // > 1: that many regions on the failing server, one concurrent request each (attempts of the loops interleave)
+	setup        func(cl *verifsim.Cluster, mark func())
+	opts         []Option
 	// run for this much virtual time
 	dur time.Duration
 }
@@ -145,6 +147,16 @@ func TestVerifC17(t *testing.T) {
 				return nil
 			})
 		}},
+		{name: "meta-answers-an-error", tol: 3, setup: func(cl *verifsim.Cluster, mark func()) {
+			// hbase:meta is reachable but answers every lookup with an exception the client has no class for
+			cl.Rules = append(cl.Rules, func(c *verifsim.Cluster, rs *verifsim.RS, sc *verifsim.ServerConn, req *verifsim.Request, name []byte) *verifsim.Directive {
+				if req.Method == "Scan" && string(name) == "hbase:meta,,1" {
+					mark()
+					return &verifsim.Directive{Exc: "org.apache.hadoop.hbase.security.AccessDeniedException"}
+				}
+				return nil
+			})
+		}},
 		{name: "zookeeper-errors", tol: 1, setup: func(cl *verifsim.Cluster, mark func()) {
 			cl.ZKErr = errors.New("zk: could not connect to a server")
 			cl.ZKMark = mark
@@ -183,6 +195,35 @@ func TestVerifC17(t *testing.T) {
 			m := s
 			m.loops = 3
 			m.name += "/3-regions"
+			all = append(all, m)
+		}
+	}
+	// a scanner's Next as the entry point
+	all = append(all, c17Scenario{name: "retry-later-forever/scan", tol: 1, scan: true, setup: func(cl *verifsim.Cluster, mark func()) {
+		cl.Rules = append(cl.Rules, func(c *verifsim.Cluster, rs *verifsim.RS, sc *verifsim.ServerConn, req *verifsim.Request, name []byte) *verifsim.Directive {
+			if rs.Addr == "rs1" && req.Method == "Scan" {
+				mark()
+				return &verifsim.Directive{Exc: verifsim.ExcRegionOpening}
+			}
+			return nil
+		})
+	}})
+	for _, s := range scenarios {
+		switch s.name {
+		case "region-never-online", "dial-refused-forever", "meta-unreachable", "server-drops-every-connection":
+			m := s
+			m.scan = true
+			m.name += "/scan"
+			all = append(all, m)
+		}
+	}
+	// the lookup of a whole table (CacheRegions) against a failing hbase:meta / ZooKeeper
+	for _, s := range scenarios {
+		switch s.name {
+		case "meta-unreachable", "meta-answers-an-error", "zookeeper-errors":
+			m := s
+			m.cacheRegions = true
+			m.name += "/cacheregions"
 			all = append(all, m)
 		}
 	}
@@ -247,7 +288,12 @@ func TestVerifC17(t *testing.T) {
 			done := make(chan struct{})
 			go func() {
 				defer close(done)
-				if s.two {
+				if s.cacheRegions {
+					c.CacheRegions([]byte("t"))
+				} else if s.scan {
+					sc, _ := hrpc.NewScanStr(ctx, "t")
+					c.Scan(sc).Next()
+				} else if s.two {
 					p1, _ := hrpc.NewPut(ctx, []byte("t"), []byte("a!"), map[string]map[string][]byte{"f": {"q": []byte("v")}})
 					p2, _ := hrpc.NewPut(ctx, []byte("t"), []byte("n!"), map[string]map[string][]byte{"f": {"q": []byte("v")}})
 					if s.swap { // SendBatch waits for its servers in (nearly always) batch order: both orders are run
@@ -298,7 +344,9 @@ func TestVerifC17(t *testing.T) {
 					rep.bad("cancel-not-prompt", "%s: returned %v after cancellation", s.name, time.Since(tc))
 				}
 			default:
-				rep.bad("cancel-ignored-in-backoff", "%s: cancellation did not end the wait", s.name)
+				if !s.cacheRegions { // (CacheRegions takes no context)
+					rep.bad("cancel-ignored-in-backoff", "%s: cancellation did not end the wait", s.name)
+				}
 			}
 			// let the failure end so that every retry loop can wind down, then close
 			cl.Lock()
